@@ -167,15 +167,19 @@ Definition nodes_of (c : config) : list node :=
 Definition succs (E : list (node * node)) (v : node) : list node :=
   map snd (filter (fun e => node_eqb (fst e) v) E).
 
+(* existsb with a real short cut (vm_compute is strict: [f x || existsb f r] would evaluate both) *)
+Fixpoint anyb {A} (f : A -> bool) (l : list A) : bool :=
+  match l with [] => false | x :: r => if f x then true else anyb f r end.
+
 (* own cycle check (gonum topo.Sort is a library): is there a walk of [fuel] edges from v?
    With fuel = number of nodes such a walk exists iff a cycle is reachable from v. *)
 Fixpoint longwalk (E : list (node * node)) (fuel : nat) (v : node) : bool :=
   match fuel with
   | 0 => true
-  | S f => existsb (longwalk E f) (succs E v)
+  | S f => anyb (longwalk E f) (succs E v)
   end.
 
-Definition cyclic (V : list node) (E : list (node * node)) : bool := existsb (longwalk E (length V)) V.
+Definition cyclic (V : list node) (E : list (node * node)) : bool := anyb (longwalk E (length V)) V.
 
 Record graph := mkG { g_nodes : list node; g_edges : list (node * node) }.
 
@@ -242,6 +246,13 @@ Definition deliver_walks (g : graph) (r : node) : list (list node) :=
   walks (g_edges g) (length (g_nodes g)) r.
 
 Definition deliver (g : graph) (r : node) : list (node * list node) := omap observe (deliver_walks g r).
+
+(* connector.go build{Traces,Metrics,Logs,Profiles}: the router handed to a connector instance offers
+   one consumer per pipeline id of its out-edges (all of them capabilities nodes) *)
+Definition router_pids (g : graph) (n : node) : list pid :=
+  omap (fun w => match w with Cap p => Some p | _ => None end) (succs (g_edges g) n).
+
+Definition is_connector (n : node) : bool := match n with Conn _ _ _ => true | _ => false end.
 
 (* ---- the reported cycle -------------------------------------------------------------------- *)
 (* cycleErr prints the processors and connectors of gonum's first cycle, rotated to start at a
